@@ -2,7 +2,7 @@ prop(
     "C06",
     pkg="c06",
     title="Reported positions spell the text they point at",
-    technique="property-based testing (rapid): read-back round-trip of every extracted field position against the file bytes, plus caret-line parse-back",
+    technique="property-based testing (rapid) + native coverage-guided fuzzing (go test -fuzz, thorough tier): read-back round-trip of every extracted field position against the file bytes, plus caret-line parse-back",
     level="exploration",
     design_ref="DESIGN.md 2/C06",
     stages=[
